@@ -36,7 +36,8 @@ RULE = ('bases: pool of 4-6 queries with lengths 1-25 (at least three distinct l
         '(reference), then calls on random subsets / permutations / duplications of the pool (plus the '
         'structured ones: whole pool, reversed pool, each query after the longest one, each query twice) '
         'under thread counts 1..16, parallel chunk sizes 0-3, n_nearest None or 1..n_targets, two '
-        'scratch-poison constants, and annotate_seqlets for one-hot pools. non-trivial = the call\'s query '
+        'scratch-poison constants, and annotate_seqlets for one-hot pools and for pools of look-alike seqlets (one-hot, '
+        'the same with all-zero N columns, soft encodings with the same arg-max; alone / together / reversed). non-trivial = the call\'s query '
         'list has at least three distinct lengths and its longest query is not first')
 TRUSTED = ['bit-identity is decided on exact fractions of the float64 outputs (fractions.Fraction)',
            'the thread count is set through tomtom(n_jobs=...), the chunk size through numba.set_parallel_chunksize',
@@ -313,6 +314,54 @@ def gen_zero_base(rng):
     return {'Q': Q, 'T': z['T'], 'nb': z['nb'], 'rc': False, 'ntb': None}
 
 
+def gen_annot_base(rng):
+    """seqlets for annotate_seqlets that are NOT strictly one-hot: a one-hot seqlet, the same seqlet with
+    all-zero (N) columns where it has an A, and two soft (PWM-like) versions with the same per-column
+    arg-max - equal lengths, equal decoded strings, different encodings - plus seqlets of other lengths"""
+    rs = c14.np_rng(rng)
+    L = rng.randint(3, 10)
+    eye = numpy.eye(4)
+    idx = [rng.randrange(4) for _ in range(L)]
+    idx[rng.randrange(L)] = 0                                   # at least one A
+    a_pos = [i for i, k in enumerate(idx) if k == 0]
+    seqA = [eye[k].tolist() for k in idx]
+    seqN = [list(c) for c in seqA]
+    for i in rng.sample(a_pos, rng.randint(1, min(2, len(a_pos)))):
+        seqN[i] = [0.0, 0.0, 0.0, 0.0]
+
+    def soft(hi):
+        out = []
+        for k in idx:
+            c = [(1 - hi) / 3] * 4
+            c[k] = hi
+            out.append(c)
+        return out
+    others = [eye[rs.randint(4, size=n)].tolist() for n in (rng.choice([1, 2]), L + rng.randint(2, 9))]
+    Q = [others[0], seqA, seqN, soft(0.7), others[1], soft(rng.choice([0.4, 0.55, 0.85]))]
+    nT = rng.randint(3, 7)
+    alpha = rng.choice([0.3, 1.0])
+    T = [c14.pwm(rs, rng.choice([2, 3, 4, 6, 9, 14]), alpha, 0) for _ in range(nT)]
+    if rng.random() < 0.5:
+        T[rng.randrange(nT)] = [list(c) for c in seqA]
+    return {'Q': Q, 'T': T, 'nb': rng.choice([20, 50, 100]), 'rc': rng.random() < 0.5,
+            'ntb': 100 if rng.random() < 0.3 else None}
+
+
+def annot_variants(rng, base, n_random):
+    """alone / together / reversed for the look-alike seqlets 1 (one-hot), 2 (with N), 3 and 5 (soft)"""
+    lists = [[1, 2], [2, 1], [2], [1], [3, 1], [1, 3], [3, 5], [5, 3], [2, 3], [3, 2],
+             [0, 1, 2, 3, 4, 5], [5, 4, 3, 2, 1, 0], [4, 2, 0, 1], [2, 2, 1]]
+    for _ in range(n_random):
+        lists.append([rng.randrange(6) for _ in range(rng.randint(2, 6))])
+    nT = len(base['T'])
+    for j, idxs in enumerate(lists):
+        yield dict(base, kind='variant', idxs=idxs, threads=rng.choice([1, 2, 5, 16]), chunk=0,
+                   nn=rng.randint(1, nT), poison='A', api='annotate')
+    for idxs in ([1, 2], [2, 1], [3, 2, 1, 5]):
+        yield dict(base, kind='variant', idxs=idxs, threads=rng.choice([1, 3]), chunk=0,
+                   nn=None, poison='A', api='tomtom')
+
+
 def variants(rng, base, n_random, threads_all):
     k = len(base['Q'])
     longest = max(range(k), key=lambda i: len(base['Q'][i]))
@@ -340,6 +389,10 @@ def generate(tier, rng):
     quick = tier != 'thorough'
     start_worker()
     n_bases, n_zero, n_oh, n_random = (7, 2, 2, 6) if quick else (16, 5, 4, 20)
+    for _ in range(2 if quick else 8):
+        base = gen_annot_base(rng)
+        for v in annot_variants(rng, base, 2 if quick else 8):
+            yield v
     for b in range(n_bases + n_zero + n_oh):
         if b < n_bases:
             base = gen_base(rng)
